@@ -293,3 +293,184 @@ Theorem C02_path_resolves_refuted :
   /\ (lookup doc_odd [RKey (PInt 1)] = Some (leaf3 16 (PInt 8))
       /\ pb_safe Dot doc_odd [RKey (PInt 1)] = false /\ requery Dot doc_odd [RKey (PInt 1)] = Some [14%N]).
 Proof. vm_compute. repeat split; reflexivity. Qed.
+
+(* ====================================================================== *)
+(* EVERY HANDLER'S REPORTED PATH IS THE BUILT PATH (proofs: Proofs/EvalPathAt.v,
+   EvalPathResolve.v, EvalLocChild.v; vocabulary: Spec/SpecC02.v).
+
+   [anc_loc anc]       the location of a result, read off its ancestry (a mapping
+                       parent gives RKey, a sequence parent RIdx - an index counted
+                       from the end normalised -, a set parent RMember);
+   [c02_doc_ok d]      in every mapping of d the keys are scalars, pairwise unequal
+                       under Python ==, in every set the members likewise: true of
+                       every loaded document, not enforced by the document type;
+   [c02_path_plain]    the guard on the QUERY, exactly the situations in which a
+                       handler reports something else than the text of the location
+                       (witnesses: C02_reported_path_is_built_refuted): an [&anchor]
+                       segment (reported by anchor name, finding F27), an index
+                       counted from the end (reported as written: [-1]), an
+                       integer-looking key not written the way str(int) writes it
+                       ("01": the int() fallback finds the key 1, "01" is reported).
+
+   For every document, every path of the C01 fragment with slices last (key incl.
+   Array-of-Hashes pass-through, index, hash / set slices, all five search loops,
+   `*`, `**`, each with and without a following segment), every oracle, every real
+   result: the reported path is build_orig of the result's location, the location
+   holds the result's node, and the whole NodeCoords is the one the straight walk
+   to that location produces (pb_coords: parent, parentref, path, ancestry). *)
+From YP Require Import SpecC02 EvalPathAt EvalPathResolve EvalLocChild.
+
+Theorem C02_reported_path_is_built_partial :
+  forall lit re_search nstr vstr kw_handler creator segs d m par rf path anc,
+    c02_doc_ok d = true ->
+    c01_frag (PPath segs) = true -> slices_last segs = true -> c02_path_plain segs = true ->
+    In (RCoords (RNode m) par rf path anc)
+       (fst (get_required lit re_search nstr vstr kw_handler creator (PPath segs) d)) ->
+    lookup d (anc_loc anc) = Some m
+    /\ path = build_orig (anc_loc anc)
+    /\ RCoords (RNode m) par rf path anc = pb_coords d (anc_loc anc) m.
+Proof. exact reported_path_is_built. Qed.
+Print Assumptions C02_reported_path_is_built_partial.
+
+(* THE PATH CLAUSE OF THE PROPERTY FOR ALL RESULTS: re-evaluating the reported
+   path of any real result yields exactly that result - its node and no other,
+   with the same coordinates - under the guard pb_safe of its location (finding
+   F26 is the complement) and the two guards above. *)
+Theorem C02_every_reported_path_resolves_partial :
+  forall lit re_search nstr vstr kw_handler creator segs d m par rf path anc f,
+    c02_doc_ok d = true ->
+    c01_frag (PPath segs) = true -> slices_last segs = true -> c02_path_plain segs = true ->
+    In (RCoords (RNode m) par rf path anc)
+       (fst (get_required lit re_search nstr vstr kw_handler creator (PPath segs) d)) ->
+    pb_safe Dot d (anc_loc anc) = true ->
+    exists p, prepare (S f) path = Ok p
+              /\ get_required lit re_search nstr vstr kw_handler creator p d
+                 = ([RCoords (RNode m) par rf path anc], Done).
+Proof. exact every_reported_path_resolves. Qed.
+Print Assumptions C02_every_reported_path_resolves_partial.
+
+(* ... and in either notation: str() of the reported path after its separator was set *)
+Theorem C02_every_reported_path_resolves_canonical_partial :
+  forall lit re_search nstr vstr kw_handler creator segs d m par rf path anc (sp' : sep) f,
+    c02_doc_ok d = true ->
+    c01_frag (PPath segs) = true -> slices_last segs = true -> c02_path_plain segs = true ->
+    In (RCoords (RNode m) par rf path anc)
+       (fst (get_required lit re_search nstr vstr kw_handler creator (PPath segs) d)) ->
+    pb_safe Dot d (anc_loc anc) = true -> pb_safe sp' d (anc_loc anc) = true ->
+    exists t p, canon sp' path = Ok t /\ prepare (S f) t = Ok p
+                /\ get_required lit re_search nstr vstr kw_handler creator p d
+                   = ([RCoords (RNode m) par rf path anc], Done).
+Proof. exact every_reported_path_resolves_canon. Qed.
+Print Assumptions C02_every_reported_path_resolves_canonical_partial.
+
+(* "indexing the parent by the reference gives the very node returned (for a set
+   member: the parent set contains it)" in the Doc.child form: the corollary of
+   C02_parentref for mappings whose keys are pairwise unequal.  No guard on the
+   query: anchors and indexes counted from the end are inside. *)
+Theorem C02_parentref_child :
+  forall lit re_search nstr vstr kw_handler creator segs d m par r path anc,
+    c02_doc_ok d = true ->
+    c01_frag (PPath segs) = true -> slices_last segs = true ->
+    In (RCoords (RNode m) (Some par) (Some r) path anc)
+       (fst (get_required lit re_search nstr vstr kw_handler creator (PPath segs) d)) ->
+    exists p, par = RNode p /\
+      match p with
+      | NSet _ els => In m els
+      | _ => child p (anc_ref (par, r)) = Some m
+      end.
+Proof. exact required_parentref_child. Qed.
+Print Assumptions C02_parentref_child.
+
+(* under the guard of the path theorem the set member is found by its reference as well *)
+Theorem C02_parentref_child_plain_partial :
+  forall lit re_search nstr vstr kw_handler creator segs d m par r path anc,
+    c02_doc_ok d = true ->
+    c01_frag (PPath segs) = true -> slices_last segs = true -> c02_path_plain segs = true ->
+    In (RCoords (RNode m) (Some par) (Some r) path anc)
+       (fst (get_required lit re_search nstr vstr kw_handler creator (PPath segs) d)) ->
+    exists p, par = RNode p /\ child p (anc_ref (par, r)) = Some m.
+Proof. exact required_parentref_child_plain. Qed.
+Print Assumptions C02_parentref_child_plain_partial.
+
+(* ---- non-vacuity: every handler, on the document with every escapable character ---- *)
+(* per result: (identity, reported path, is the reported path the built one and does the location hold the node,
+   pb_safe Dot of the location) *)
+Definition rp_rows (text : string) (d : node) : option (bool * list (N * string * bool * bool)) :=
+  match prepare 20 text with
+  | Ok (PPath segs) =>
+      Some (c01_frag (PPath segs) && slices_last segs && c02_path_plain segs && c02_doc_ok d,
+            map (fun x => match x with
+                          | RCoords (RNode m) _ _ path anc =>
+                              (node_oid m, path,
+                               String.eqb path (build_orig (anc_loc anc))
+                               && match lookup d (anc_loc anc) with Some m' => N.eqb (node_oid m') (node_oid m) | None => false end,
+                               pb_safe Dot d (anc_loc anc))
+                          | _ => (999%N, "", false, false)
+                          end)
+                (fst (get_required lit3 re3 (fun _ => "") (fun _ => "") kw3 cr3 (PPath segs) d)))
+  | _ => None
+  end.
+Definition rp_all_built (text : string) (d : node) (n : nat) : bool :=
+  match rp_rows text d with
+  | Some (true, rows) => Nat.eqb (List.length rows) n && forallb (fun r => snd (fst r) && snd r) rows
+  | _ => false
+  end.
+
+Example C02_every_handler_nonvacuous :
+  (* `**` (all leaves incl. set members), `*`, wildcard + filter, traversal + filter, search on `.` over keys,
+     hash slice, key + indexes, pass-through `x.a` of doc_x, set search, set slice *)
+  rp_all_built "**" doc_esc 5 = true /\ rp_all_built "*" doc_esc 2 = true
+  /\ rp_all_built "*[.=m.1]" doc_esc 1 = true /\ rp_all_built "**[.=deep]" doc_esc 1 = true
+  /\ rp_all_built "[.^a]" doc_esc 1 = true /\ rp_all_built "[a:z]" doc_esc 2 = true
+  /\ rp_all_built "s[.$2]" doc_esc 1 = true /\ rp_all_built "s[m:n]" doc_esc 2 = true
+  /\ rp_all_built "x.a" doc_x 1 = true /\ rp_all_built "x[0].*" doc_x 1 = true /\ rp_all_built "x.*[a!=2]" doc_x 1 = true
+  /\ rp_rows "**[.=deep]" doc_esc
+     = Some (true, [(7%N, "a\\b\.c/d\(e\)f\[g\]h\^i\$j\%k\ l\'m\""n.[1].[0].x\ y", true, true)]).
+Proof. vm_compute. repeat split; reflexivity. Qed.
+
+(* ---- the guards are needed: what the handlers report instead ---- *)
+(* {a: &k 1, b: [7, 8, 9], 1: x} *)
+Definition doc_rp : node :=
+  NMap (inf3 0) [ (leaf3 1 (PStr "a"), NLeaf (mkinfo 2 (Some "k") true None) (PInt 1));
+                  (leaf3 3 (PStr "b"), NSeq (inf3 4) [leaf3 5 (PInt 7); leaf3 6 (PInt 8); leaf3 7 (PInt 9)]);
+                  (leaf3 8 (PInt 1), leaf3 9 (PStr "x")) ].
+(* {a: 1, a: 2}: no loaded document (equal keys) *)
+Definition doc_dupkey : node :=
+  NMap (inf3 0) [ (leaf3 1 (PStr "a"), leaf3 2 (PInt 1)); (leaf3 3 (PStr "a"), leaf3 4 (PInt 2)) ].
+
+Theorem C02_reported_path_is_built_refuted :
+  (* an index counted from the end: reported as written, the location is [2]; everything else of the guard holds
+     and the location holds the node *)
+  rp_rows "b[-1]" doc_rp = Some (false, [(7%N, "b.[-1]", false, true)])
+  /\ build_orig [RKey (PStr "b"); RIdx 2] = "b.[2]"
+  /\ rp_rows "b.-1" doc_rp = Some (false, [(7%N, "b.[-1]", false, true)])
+  (* an anchor segment: reported by anchor name (F27) *)
+  /\ rp_rows "&k" doc_rp = Some (false, [(2%N, "[&k]", false, true)])
+  (* an integer-looking key not spelled like str(int): int("01") = 1 finds the key 1, "01" is reported *)
+  /\ rp_rows "01" doc_rp = Some (false, [(9%N, "01", false, true)])
+  /\ build_orig [RKey (PInt 1)] = "1"
+  (* ... while the plain spellings are inside the theorem *)
+  /\ rp_all_built "b[2]" doc_rp 1 = true /\ rp_all_built "b.2" doc_rp 1 = true
+  /\ rp_all_built "a" doc_rp 1 = true /\ rp_all_built "1" doc_rp 1 = true
+  (* equal keys in one mapping (no loaded document): the location of the second value holds the first *)
+  /\ c02_doc_ok doc_dupkey = false
+  /\ rp_rows "*" doc_dupkey = Some (false, [(2%N, "a", true, true); (4%N, "a", false, true)]).
+Proof. vm_compute. repeat split; reflexivity. Qed.
+
+(* the Doc.child form on results reached by an index counted from the end and by an anchor *)
+Definition child_rows (text : string) (d : node) : list (N * option N) :=
+  match prepare 20 text with
+  | Ok p => map (fun x => match x with
+                          | RCoords (RNode m) (Some (RNode p)) (Some r) _ _ =>
+                              (node_oid m, option_map node_oid (child p (anc_ref (RNode p, r))))
+                          | _ => (999%N, None)
+                          end)
+                (fst (get_required lit3 re3 (fun _ => "") (fun _ => "") kw3 cr3 p d))
+  | _ => []
+  end.
+Example C02_parentref_child_nonvacuous :
+  c02_doc_ok doc_rp = true /\ c02_doc_ok doc_esc = true
+  /\ child_rows "b[-1]" doc_rp = [(7%N, Some 7%N)] /\ child_rows "&k" doc_rp = [(2%N, Some 2%N)]
+  /\ child_rows "*" doc_rp = [(2%N, Some 2%N); (4%N, Some 4%N); (9%N, Some 9%N)]
+  /\ child_rows "s.*" doc_esc = [(12%N, Some 12%N); (13%N, Some 13%N)].
+Proof. vm_compute. repeat split; reflexivity. Qed.
